@@ -103,7 +103,7 @@ def setup(cfg):
     if cfg.get('trunc_stub', True):
         def trunc(rate, T):
             x = symx.ENG.var('x', lo=0, lo_strict=not cfg.get('zero_delay'))
-            if symx.ENG.mode == 'sym':
+            if symx.ENG.mode == 'sym' and not symx._isinf(T):      # (T = inf: a plain exponential delay)
                 symx.ENG.assume(symx.lift(x) < symx.lift(T))
             symx.ENG.log.append(('truncexp', rate, T, x))
             return x
@@ -192,6 +192,16 @@ def _call_entry(h, r, kind='no-exception'):
         else:
             kw['trans_time_fxn'] = r.trans_time_fxn
             kw['rec_time_fxn'] = r.rec_time_fxn
+        if cfg.get('fxn_args'):
+            # each user function has its own tuple of extra arguments and checks that it is handed exactly that one
+            if cfg.get('joint'):
+                kw['trans_and_rec_time_fxn'] = expecting(r.joint_fxn, 2, JOINT_ARGS, 'trans_and_rec_time_fxn')
+                kw['trans_and_rec_time_args'] = JOINT_ARGS
+            else:
+                kw['trans_time_fxn'] = expecting(r.trans_time_fxn, 3 if entry.endswith('SIS') else 2, TRANS_ARGS, 'trans_time_fxn')
+                kw['rec_time_fxn'] = expecting(r.rec_time_fxn, 1, REC_ARGS, 'rec_time_fxn')
+                kw['trans_time_args'] = TRANS_ARGS
+                kw['rec_time_args'] = REC_ARGS
         return h.call_must_succeed(kind, f, r.G, **kw)
     if entry == 'discrete_SIR':
         kw.update(ic_kwargs(r, True))
@@ -221,6 +231,21 @@ def _call_entry(h, r, kind='no-exception'):
         r.p = symx.ENG.real('p', lo=0, hi=1) if cfg.get('p', 'sym') == 'sym' else cfg['p']
         return h.call_must_succeed(kind, f, r.G, r.p, **kw)
     raise ValueError(entry)
+
+
+TRANS_ARGS, REC_ARGS, JOINT_ARGS = ('args-for-trans_time_fxn', 0.7), ('args-for-rec_time_fxn', 3.0), ('args-for-trans_and_rec_time_fxn',)
+
+
+class WrongUserArgs(Exception):
+    pass
+
+
+def expecting(fn, nfixed, expect, name):
+    def w(*a):
+        if tuple(a[nfixed:]) != tuple(expect):
+            raise WrongUserArgs('%s was called with extra arguments %r, the caller asked for %r' % (name, tuple(a[nfixed:]), tuple(expect)))
+        return fn(*a[:nfixed])
+    return w
 
 
 def make_user_fxns(r, replay_from=None):
